@@ -1,13 +1,13 @@
 (** * C11 — Recursive and transfer operations are exact (pinned statements).
-    partial: create_dir_all and remove_dir_all are proved exact for a MemoryFS instance (all paths,
-    all states, trees of any size and depth); copy_file, move_file, copy_dir and move_dir - within one instance and across
+    partial: create_dir_all, remove_dir_all, copy_file and move_file are proved exact for a MemoryFS
+    instance (all paths, all states, all contents); copy_dir and move_dir, and the transfers across
     every ordered pair of instances - are decided by the model-independent contract oracle of the
     correspondence check and by the comparison with the model. *)
 From stdpp Require Import gmap list.
 From Coq Require Import NArith ZArith.
 From VFS Require Import Core.Types Core.Prog Core.Calls Base.MemFS Base.Handles Base.Store Layer.VfsPath
   Proofs.MemProofs Proofs.MemCalls Proofs.MemPublic Proofs.ConcProofs Proofs.Composite Proofs.ErrPaths Proofs.Leaves
-  Proofs.WalkProofs Proofs.RemoveAll.
+  Proofs.WalkProofs Proofs.RemoveAll Proofs.CopyFile.
 
 Notation mstate := (gmap (list (list N)) memfile).
 
@@ -55,6 +55,23 @@ Proof.
   rewrite bool_decide_eq_false_2 by (intros [x Hx]; discriminate). reflexivity.
 Qed.
 
+(** copy_file within a MemoryFS instance, through the whole stream path (open, create, io::copy,
+    publish on drop): for EVERY content the destination becomes a file with exactly the source's
+    bytes, the source keeps its bytes (its access time is stamped by the open), every other entry is
+    untouched, both handles are closed *)
+Theorem C11_copy_file_exact : forall lg ft (s : mstate) (hs : list hstate) (p q : path) (f : memfile),
+  s !! p = Some f -> f_type f = File -> q <> [] -> s !! q = None -> is_dir s (removelast q) ->
+  run bhandler (vp_copy_file mv p mv q) (mstore s hs lg ft) =
+  (mstore (<[q := fresh_file (f_content f)]> (<[p := touched f]> s)) (hs ++ [HClosed; HClosed]) lg ft, Ok tt).
+Proof. exact copy_file_exact. Qed.
+
+(** move_file: the same destination, and no trace of the source *)
+Theorem C11_move_file_exact : forall lg ft (s : mstate) (hs : list hstate) (p q : path) (f : memfile),
+  s !! p = Some f -> f_type f = File -> q <> [] -> s !! q = None -> is_dir s (removelast q) ->
+  run bhandler (vp_move_file mv p mv q) (mstore s hs lg ft) =
+  (mstore (<[q := fresh_file (f_content f)]> (delete p s)) (hs ++ [HClosed; HClosed]) lg ft, Ok tt).
+Proof. exact move_file_exact. Qed.
+
 Example C11_example :
   exists s', fst (run bhandler (vp_create_dir_all mv [[97%N]; [98%N]; [99%N]]) (mstore mem_new [] [] None)) = mstore s' [] [] None /\
              is_Some (s' !! [[97%N]; [98%N]; [99%N]]) /\ is_Some (s' !! [[97%N]; [98%N]]) /\ s' !! [[98%N]] = None.
@@ -66,3 +83,5 @@ Print Assumptions C11_transfer_errors.
 Print Assumptions C11_example.
 Print Assumptions C11_remove_dir_all_exact.
 Print Assumptions C11_remove_dir_all_absent.
+Print Assumptions C11_copy_file_exact.
+Print Assumptions C11_move_file_exact.
